@@ -66,8 +66,10 @@ func BuildWorlds(cfg Config, prop string, nFix, nSyn, rejectPct int, rich bool, 
 			case 2:
 				opts.SetupName = "user.gorm.go"
 				opts.DotGoDir = true
+				opts.Competing = true
 			case 3:
 				opts.SetupName = "catalog.go"
+				opts.Competing = true
 			}
 			nAcc++
 		}
